@@ -947,16 +947,26 @@ impl<'a> BTreeCursor<'a> {
             return Ok(true);
         }
 
-        let next = page.right_sibling();
-        if next.as_u64() == 0 {
-            self.slot = count;
-            return Ok(false);
+        // Deletes leave emptied leaves in the chain: step over them.
+        let mut next = page.right_sibling();
+        loop {
+            if next.as_u64() == 0 {
+                self.slot = count;
+                return Ok(false);
+            }
+            let mut buf = self.pager.read_page(next)?;
+            let (cells, sibling) = {
+                let page = Page::new(&mut buf);
+                (page.cell_count(), page.right_sibling())
+            };
+            if cells > 0 {
+                self.leaf = next;
+                self.buf = buf;
+                self.slot = 0;
+                return Ok(true);
+            }
+            next = sibling;
         }
-
-        self.leaf = next;
-        self.buf = self.pager.read_page(self.leaf)?;
-        self.slot = 0;
-        self.is_valid()
     }
 }
 
